@@ -1,25 +1,43 @@
 package main
 
 import (
+	"context"
 	"fmt"
 
-	"git.defalsify.org/vise.git/engine"
-
-	"verif/app"
-	"verif/checks"
+	"git.defalsify.org/vise.git/cache"
+	"git.defalsify.org/vise.git/db/mem"
+	"git.defalsify.org/vise.git/persist"
+	"git.defalsify.org/vise.git/state"
 )
 
 func main() {
-	for _, first := range []bool{false, true} {
-		a := checks.ProbeApp()
-		a.First = first
-		s := app.NewSession(a, engine.Config{SessionId: "s1"}, app.Persisted)
-		s.Open = app.MemStore()
-		s.FinishOnError = true
-		for _, in := range []string{"", "1", "1", "0"} {
-			r := s.Request([]byte(in))
-			st, ca, _, err := s.Snapshot()
-			fmt.Printf("first=%v in=%q -> %s finish=%q steps=%d calls=%v\n   stored: %v %v\n", first, in, r.Client(), r.FinishErr, r.Steps, r.Calls, err, app.StateKey(st, ca))
+	ctx := context.Background()
+	store := mem.NewMemDb()
+	store.Connect(ctx, "")
+	// session B written by its own persister
+	{
+		st := state.NewState(0)
+		ca := cache.NewCache()
+		st.Down("root")
+		ca.Push()
+		st.Down("bb")
+		ca.Add("own", "B", 0)
+		p := persist.NewPersister(store).WithContent(st, ca)
+		fmt.Println("save B", p.Save("B"))
+	}
+	for _, flush := range []bool{true, false} {
+		st := state.NewState(0)
+		ca := cache.NewCache()
+		st.Down("root")
+		ca.Push()
+		st.Down("aa")
+		ca.Add("secret", "A", 0)
+		p := persist.NewPersister(store).WithContent(st, ca)
+		if flush {
+			p = p.WithFlush()
 		}
+		fmt.Println("save A", p.Save("A"))
+		fmt.Println("load B", p.Load("B"))
+		fmt.Printf("flush=%v after loading B: path=%v cache=%v sizes=%v use=%d\n", flush, p.State.ExecPath, p.Memory.Cache, p.Memory.Sizes, p.Memory.CacheUseSize)
 	}
 }
